@@ -1,1 +1,182 @@
-import Soa.Model.Exec
+import Soa.Lemmas.Ledger
+import Soa.Props.C01
+/-!
+# C03 — every field value is owned exactly once
+
+One call at a time: what is in the container afterwards, what was handed back to the
+caller and what was destroyed (including by unwinding after a panic) is, as a multiset,
+exactly what was in the container before plus what was moved in.  With distinct ids this
+says: never two owners, never destroyed twice, never lost (`exactly_once`).
+
+`remove`, `swap_remove`, `pop`, `split_off`, `truncate`, `clear`, `append`, `retain` and the
+destruction of the vector conserve ownership on **every** tree, also desynchronised ones
+and also when a field's std call panics half-way.  `push`, `insert`, `replace` (the
+`ptr::read` + `mem::forget` templates) need lockstep: C19 records what happens without it.
+The clone API (`resize`, `extend_from_slice`, `to_vec`) is covered by the correspondence
+only (ledger monitor), not by a theorem here.
+-/
+namespace Soa.C03
+open Soa
+
+/-- field values handed back to the caller by a call -/
+def held (o : Model.Out) : List Nat :=
+  (o.ret.map Cols.flat).getD [] ++ (o.other.map Cols.flat).getD []
+
+/-- exactly-once ownership across one call -/
+def Conserves (c args : Cols) (o : Model.Out) : Prop :=
+  (o.st.flat ++ held o ++ o.ev.drops).Perm (c.flat ++ args.flat)
+
+theorem swapRemove_linear (i : Nat) : (swapRemoveOp i).Linear :=
+  PolyOp.ofTotal_linear (by
+    intro α xs as h
+    simp only [Bool.and_eq_true, decide_eq_true_eq, beq_iff_eq] at h
+    have : as = [] := List.eq_nil_of_length_eq_zero h.2
+    subst this
+    simp only [List.take_append_drop, List.append_nil]
+    exact swapList_perm xs _ _)
+
+/-- a per-field method without argument, built as the four templates are -/
+theorem noArg_conserves (op : PolyOp) (hl : op.Linear) (c : Cols) :
+    Conserves c (c.const [])
+      (if (c.apply2 op (c.const [])).panicked
+        then { st := (c.apply2 op (c.const [])).st, panicked := true, ev := dropFields (c.apply2 op (c.const [])).out }
+        else { st := (c.apply2 op (c.const [])).st, ret := some (c.apply2 op (c.const [])).out }) := by
+  have h := apply2_conserve op hl c (c.const []) (same_const [] c)
+  unfold Conserves held
+  split <;> simpa [dropFields] using h
+
+theorem remove (c : Cols) (i : Nat) : Conserves c (c.const []) (Model.remove c i) :=
+  noArg_conserves (removeOp i) (remove_linear i) c
+
+theorem swapRemove (c : Cols) (i : Nat) : Conserves c (c.const []) (Model.swapRemove c i) :=
+  noArg_conserves (swapRemoveOp i) (swapRemove_linear i) c
+
+theorem splitOff (c : Cols) (i : Nat) : Conserves c (c.const []) (Model.splitOff c i) :=
+  noArg_conserves (splitOffOp i) (splitOff_linear i) c
+
+theorem pop (c : Cols) : Conserves c (c.const []) (Model.pop c) := by
+  unfold Model.pop
+  split
+  · simp [Conserves, held, flat_const_nil]
+  · exact noArg_conserves popOp pop_linear c
+
+theorem append (c d : Cols) (hs : c.same d) : Conserves c d (Model.append c d) := by
+  have h := apply2_conserve appendOp append_linear c d hs
+  simpa [Conserves, held, Model.append] using h
+
+/-- the pop loop of `truncate` / `clear` / `Drop for Vec`, on any tree -/
+theorem truncateLoop (dr : Bool) (k : Nat) : ∀ (fuel : Nat) (c : Cols) (ev : Ev),
+    ((Model.truncateLoop dr k fuel c ev).st.flat ++ (Model.truncateLoop dr k fuel c ev).ev.drops).Perm
+      (c.flat ++ ev.drops) ∧ (Model.truncateLoop dr k fuel c ev).ret = none ∧
+      (Model.truncateLoop dr k fuel c ev).other = none
+  | 0, c, ev => by simp [Model.truncateLoop]
+  | fuel + 1, c, ev => by
+    simp only [Model.truncateLoop]
+    by_cases hk : c.firstLen > k
+    · simp only [hk, ↓reduceIte]
+      have hcons := apply2_conserve popOp pop_linear c (c.const []) (same_const [] c)
+      rw [flat_const_nil, List.append_nil] at hcons
+      rcases pop_cases c with h | ⟨hp, h⟩ | ⟨hp, h⟩
+      · rw [h]; simp
+      · rw [h]
+        simp only [↓reduceIte, and_self, and_true]
+        show ((c.apply2 popOp (c.const [])).st.flat ++ (ev.drops ++ (c.apply2 popOp (c.const [])).out.flat)).Perm _
+        have := List.Perm.append_right ev.drops hcons
+        refine List.Perm.trans ?_ this
+        simp only [List.append_assoc]
+        exact List.Perm.append_left _ List.perm_append_comm
+      · rw [h]
+        simp only [Bool.false_eq_true, ↓reduceIte]
+        have ih := truncateLoop dr k fuel (c.apply2 popOp (c.const [])).st
+          (ev ++ dropWhole dr (c.apply2 popOp (c.const [])).out)
+        refine ⟨ih.1.trans ?_, ih.2⟩
+        show ((c.apply2 popOp (c.const [])).st.flat ++ (ev.drops ++ (c.apply2 popOp (c.const [])).out.flat)).Perm _
+        have := List.Perm.append_right ev.drops hcons
+        refine List.Perm.trans ?_ this
+        simp only [List.append_assoc]
+        exact List.Perm.append_left _ List.perm_append_comm
+    · simp [hk]
+
+theorem truncate (dr : Bool) (c : Cols) (k : Nat) : Conserves c (c.const []) (Model.truncate dr c k) := by
+  have h := truncateLoop dr k (c.firstLen - k + 1) c {}
+  unfold Conserves held Model.truncate
+  rw [h.2.1, h.2.2]
+  simpa [flat_const_nil] using h.1
+
+theorem clear (dr : Bool) (c : Cols) : Conserves c (c.const []) (Model.clear dr c) := truncate dr c 0
+
+/-- destroying the vector destroys every field value it holds, once -/
+theorem dropVec (dr : Bool) (c : Cols) : Conserves c (c.const []) (Model.dropVec dr c) := truncate dr c 0
+
+theorem dropVec_all (dr : Bool) (c : Cols) (n : Nat) (hc : c.lock n) :
+    (Model.dropVec dr c).ev.drops.Perm c.flat := by
+  have h := dropVec dr c
+  have hr := (C01.dropVec dr hc)
+  obtain ⟨m, hm⟩ := hr.lock
+  have h0 : m = 0 := by
+    have := rows_len m _ hm
+    rw [hr.st] at this
+    simp [Spec.dropVec, Spec.truncate] at this
+    omega
+  subst h0
+  have hret : (Model.dropVec dr c).ret = none := (truncateLoop dr 0 _ c {}).2.1
+  have hoth : (Model.dropVec dr c).other = none := (truncateLoop dr 0 _ c {}).2.2
+  simpa [Conserves, held, flat_nil_of_lock0 _ hm, flat_const_nil, hret, hoth] using h
+
+variable {c e : Cols} {n : Nat}
+
+theorem push (hc : c.lock n) (he : e.lock 1) (hs : c.same e) : Conserves c e (Model.push c e) := by
+  have h := apply2_conserve appendOp append_linear c e hs
+  cases perField appendOp c e n 1 hc he hs with
+  | ok s hrun _ _ _ hout _ hlo _ _ =>
+    simp only [appendOp, PolyOp.ofTotal_run, ↓reduceIte, Option.some.injEq] at hrun
+    subst hrun
+    have hlo' := lock_of_rows_len hlo (k := 0) (by rw [hout]; rfl)
+    rw [flat_nil_of_lock0 _ hlo', List.append_nil] at h
+    simpa [Conserves, held, Model.push] using h
+  | fail _ hfail _ _ _ => simp [appendOp] at hfail
+
+theorem insert (dr : Bool) (i : Nat) (hc : c.lock n) (he : e.lock 1) (hs : c.same e) :
+    Conserves c e (Model.insert dr c i e) := by
+  have h := apply2_conserve (insertOp i) (insert_linear i) c e hs
+  unfold Model.insert
+  rw [firstLen_lock c n hc]
+  cases perField (insertOp i) c e n 1 hc he hs with
+  | ok s hrun hfail hp _ hout _ hlo _ _ =>
+    have hi : ¬ i > n := by simpa [insertOp] using hfail
+    have hi' : i ≤ c.rows.length := by rw [rows_len n c hc]; omega
+    simp only [insertOp, PolyOp.ofTotal_run, hi', decide_true, ↓reduceIte, Option.some.injEq] at hrun
+    subst hrun
+    have hlo' := lock_of_rows_len hlo (k := 0) (by rw [hout]; rfl)
+    rw [flat_nil_of_lock0 _ hlo', List.append_nil] at h
+    simpa [Conserves, held, hi, hp] using h
+  | fail _ hfail _ _ _ =>
+    have hi : i > n := by simpa [insertOp] using hfail
+    simp [Conserves, held, hi, dropWhole]
+
+theorem replace (dr : Bool) (i : Nat) (hc : c.lock n) (he : e.lock 1) (hs : c.same e) :
+    Conserves c e (Model.replace dr c i e) := by
+  have h := apply2_conserve (replaceOp i) (replace_linear i) c e hs
+  unfold Model.replace
+  rw [firstLen_lock c n hc]
+  cases perField (replaceOp i) c e n 1 hc he hs with
+  | ok s _ hfail hp _ _ _ _ _ _ =>
+    have hi : ¬ i ≥ n := by simpa [replaceOp] using hfail
+    simpa [Conserves, held, hi, hp] using h
+  | fail _ hfail _ _ _ =>
+    have hi : i ≥ n := by simpa [replaceOp] using hfail
+    simp [Conserves, held, hi, dropWhole]
+
+/-- with distinct ids: nothing has two owners, is destroyed twice, or is both returned and
+    destroyed — the three lists on the left are pairwise disjoint and duplicate-free -/
+theorem exactly_once {args : Cols} {o : Model.Out} (h : Conserves c args o)
+    (hd : (c.flat ++ args.flat).Nodup) : (o.st.flat ++ held o ++ o.ev.drops).Nodup :=
+  (List.Perm.nodup_iff h).mpr hd
+
+/-! non-vacuity -/
+example : Conserves C01.exC C01.exE (Model.insert false C01.exC 1 C01.exE) :=
+  insert false 1 (n := 2) (by simp [C01.exC]) (by simp [C01.exE])
+    (by simp [C01.exC, C01.exE, Cols.same, Cols.same.sameL])
+example : (C01.exC.flat ++ C01.exE.flat).Nodup := by decide
+
+end Soa.C03
